@@ -196,6 +196,9 @@ def model_layer(run, rng, tier, model):
             base = {"module": m["text"], "type": c["tn"], "model_type": c["ts"], "value": c["vs"], "command_line": l, "c": o}
             if kind == "ref":
                 if r is None:
+                    if explicit_unsigned_member(m, dict(m["defs"])[c["tn"]]):
+                        run.known_finding("C02-explicit-tag-unsigned-member", l)
+                        continue
                     run.violation("correspondence:Rt.der", dict(base, what="the C does not decode the model's DER"), no_input=True)
                     continue
                 ref[id(c)] = r
@@ -250,6 +253,31 @@ def model_layer(run, rng, tier, model):
         for c in [x for x in cases if x["mod"] is m][:2]:
             run.sample({"type": c["ts"], "value": c["vs"][:80], "der": c["mder"][:60]})
     return mods
+
+
+def explicit_unsigned_member(mod, t):
+    """known open defect C02-explicit-tag-unsigned-member (tag written twice, the correct encoding rejected): a
+    SEQUENCE/CHOICE member with a manual EXPLICIT tag whose INTEGER gets unsigned specifics — seen here also
+    for a semi-constrained `(0..MAX)`, not only for 2^31 <= ub < 2^32"""
+    if t is None:
+        return False
+    env = dict(mod["defs"])
+    k = t["k"]
+    if k == "ref":
+        return explicit_unsigned_member(mod, env[t["ref"]])
+    if k in ("seq", "choice"):
+        for _n, mt, _o in t["ms"]:
+            tag = mt.get("tag")
+            c = mt.get("con")
+            if mt["k"] == "int" and tag and (tag[2] == "EXPLICIT" or (tag[2] is None and mod["default"] == "EXPLICIT")) \
+               and c and c[0] is not None and c[0] >= 0 and (c[1] is None or c[1] >= 2**31):
+                return True
+            if explicit_unsigned_member(mod, mt):
+                return True
+        return False
+    if k in ("seqof", "setof"):
+        return explicit_unsigned_member(mod, t["el"])
+    return False
 
 
 def uper_bytes(bits_hex):
